@@ -40,6 +40,8 @@ LOOPS = [
     ("str_typed", "l: str", "for i in l:", "i", "i"),
     ("bytes_typed", "l: bytes", "for i in l:", "i", "i"),
     ("bytearray_typed", "l: bytearray", "for i in l:", "i", "i"),
+    ("bytearray_reversed_typed", "l: bytearray", "for i in reversed(l):", "i", "i"),
+    ("bytearray_reversed_untyped", "l", "for i in reversed(l):", "i", "i"),
     ("enumerate", "l", "for n, x in enumerate(l):", "(n, x)", "n, x"),
     ("enumerate_start", "l: list", "for n, x in enumerate(l, 5):", "(n, x)", "n, x"),
     ("reversed_list", "l: list", "for i in reversed(l):", "i", "i"),
@@ -136,7 +138,7 @@ SRC = gen_source()
 DICT_MUT = ["insert", "burst", "del_first", "del_last", "replace_value", "clear", "same_size", "del_and_reinsert"]
 SET_MUT = ["insert", "burst", "del_first", "del_last", "clear", "same_size"]
 LIST_MUT = ["insert", "burst", "del_first", "del_last", "replace_value", "clear", "insert_front"]
-BA_MUT = ["insert", "del_last", "clear"]
+BA_MUT = ["insert", "del_last", "clear", "del_tail", "burst"]
 
 
 def gen_nested_case(rng):
@@ -187,7 +189,7 @@ def gen_case(rng):
         arg = ["bytes", "abcdefghij"[:size]]
         muts = []
     elif name.startswith("bytearray"):
-        arg = ["bytearray", "abcdefghij"[:size]]
+        arg = ["bytearray", ("abcdefghij" * 7)[:size if rng.random() < 0.7 else size * 8]]
         muts = BA_MUT
     elif name.startswith("range_mix"):
         RANGES = {"cython.uchar": (0, 255), "cython.schar": (-128, 127), "cython.short": (-32768, 32767),
